@@ -122,7 +122,8 @@ class TreeGen:
             spec = S(**{name: Val(u), other: Coalesce(getattr(S, src), default=ABSENT)})
             return Node('bind_S_multi', spec, name=name, value=u, other=other, src=src)
         if k == 'S':
-            u = self.uval()
+            # (a tenth of the bound values are None: a binding to None is a binding)
+            u = self.uval() if rng.random() > 0.1 else None
             return Node('bind_S', S(**{name: Val(u)}), name=name, value=u)
         if k == 'S-from':
             src = rng.choice(NAMES)
@@ -517,6 +518,25 @@ def systematic(col, rng, tracer):
     got = call(G, 0, spec)
     if not got.ok or got.value != ABSENT:
         col.violation('C07/systematic:inner-binding-visible-to-enclosing', '%r -> %r' % (spec, got), None)
+    # a binding whose value is None is a binding, for every reader style and every way of binding
+    for bdesc, binder, target, scope_kw in (('S(k=Val(None))', S(k=Val(None)), 'T', {}), ('A.k on a None target', 'A', 'T', {}),
+                                            ('scope={k: None}', T, 'T', {'scope': {'k': None}}),
+                                            ('Spec(scope={k: None})', None, 'T', {})):
+        for rdesc, rd in (('S.k', S.k), ("S['k']", S['k']), ('Path(S, k)', gcore.Path(S, 'k'))):
+            reader = Coalesce(rd, default=ABSENT)
+            if binder is None:
+                spec = Spec(reader, scope={'k': None})
+            elif binder == 'A':
+                spec = (S(k=Val('OUTER')), Val(None), A.k, reader)     # (the same chain: A.k binds for the later steps)
+            elif scope_kw:
+                spec = (binder, reader)           # (k comes from scope=: nothing in the spec may shadow it)
+            else:
+                spec = (S(k=Val('OUTER')), binder, reader)
+            got = call(G, target, spec, **scope_kw)
+            col.case(('none-binding', bdesc, rdesc), True)
+            col.count('reader_observations')
+            if not got.ok or got.value is not None:
+                col.violation('C07/binding-to-None-not-visible:%s' % rdesc, '%s then reader %s: %r, expected None' % (bdesc, rdesc, got), None)
     spec = (Coalesce(S.globals.g, default=ABSENT), A.globals.g)
     first, second = call(G, 5, (spec[1], spec[0])), call(G, 6, spec[0])
     col.count('reader_observations', 2)
